@@ -420,6 +420,28 @@ pub fn c15(ctx: &mut Ctx) {
     ctx.run_space("pli-lengths", 3, |idx, l| {
         home_case(l, F::Pli, &vec![0u8; 4 * idx as usize], 0);
     });
+    // PLI bodies of every length 0, 4 ... 256 bytes in eight fills, among them the ones that look like something
+    // legitimate: all zeros, a padding trailer that nobody announced (zeros ending in the body's own length, in 4, in
+    // 1), all ones, a single set bit at either end - the body of a PLI is empty, whatever it would look like
+    ctx.bound("pli bodies", "lengths 0..=256 bytes (multiples of 4) x 8 fills incl. unannounced padding trailers; through parse_fci and through Pli::parse");
+    ctx.run_space("pli-bodies", 65 * 8, |idx, l| {
+        let n = 4 * (idx % 65) as usize;
+        let mut body = vec![0u8; n];
+        if n > 0 {
+            match idx / 65 {
+                0 => {}
+                1 => body[n - 1] = n as u8,
+                2 => body[n - 1] = 4,
+                3 => body[n - 1] = 1,
+                4 => body.iter_mut().for_each(|b| *b = 0xFF),
+                5 => body[0] = 0x80,
+                6 => body[0] = (n as u8).wrapping_sub(1),
+                _ => body.iter_mut().enumerate().for_each(|(i, b)| *b = (i as u8).wrapping_mul(37) | 1),
+            }
+        }
+        home_case(l, F::Pli, &body, idx);
+        direct_case(l, &body);
+    });
     // gating: boundary bodies under every (kind, format) and every requested type
     let mut gate_bodies: Vec<Vec<u8>> = vec![vec![], vec![0; 4], vec![0xFF; 4], vec![0; 8], vec![0xFF; 8], vec![0; 12], vec![0x08, 0x60, 0xF0, 0x00], vec![0x00, 0x00, 0x12, 0x34, 0x56, 0x78, 0x9A, 0xBC]];
     for w in bw {
